@@ -11,6 +11,7 @@ use crate::{
 };
 
 pub struct X {
+    strat: Strat,
     timeout: Option<u32>,
     fail: bool,
     /// (message id, duration)
@@ -143,6 +144,17 @@ fn oracle(s: &ProgScene<X>, t: &Trace) -> Vec<Violation> {
             }
         }
     }
+    // an abandoned invocation is not a restart: no lifecycle callback runs because of it
+    crate::check::oblige("no-restart-on-timeout");
+    let starts = an.enters.iter().filter(|e| e.a == 0 && e.cb == Cb::Started).count();
+    let insts: std::collections::BTreeSet<u16> = an.enters.iter().filter(|e| e.a == 0).map(|e| e.inst).collect();
+    if starts > 1 || insts.len() > 1 {
+        out.push(Violation {
+            clause: "no-restart-on-timeout",
+            key: format!("C11/restarted-by-timeout/{cfg}/strategy={:?}", x.strat),
+            detail: format!("started() ran {starts} times on {} actor value(s) although nobody asked for a restart", insts.len()),
+        });
+    }
     // state intact: replies carry the fold of the completed messages only
     for o in &an.ops {
         if let Some(Res::Reply(r)) = o.res {
@@ -215,6 +227,10 @@ fn oracle(s: &ProgScene<X>, t: &Trace) -> Vec<Violation> {
 }
 
 fn make_case(timeout: Option<u32>, fail: bool, durs: &[u32], mailbox: Mailbox, layout: u8) -> Case {
+    make_case_s(timeout, fail, durs, mailbox, layout, Strat::Default)
+}
+
+fn make_case_s(timeout: Option<u32>, fail: bool, durs: &[u32], mailbox: Mailbox, layout: u8, strat: Strat) -> Case {
     let mut role = RoleCfg::default();
     let mut durations = vec![];
     for (k, d) in durs.iter().enumerate() {
@@ -250,17 +266,17 @@ fn make_case(timeout: Option<u32>, fail: bool, durs: &[u32], mailbox: Mailbox, l
     if fail {
         clients.push(ClientSpec { init: vec![HInit::Addr], ops: vec![Op::Sleep(total), Op::Halt(H::Addr(0))] });
     }
-    let desc = format!("timeout t={timeout:?} fail={fail} durations={durs:?} mailbox={} layout={layout}", mailbox.name());
+    let desc = format!("timeout t={timeout:?} fail={fail} durations={durs:?} mailbox={} layout={layout} strategy={strat:?}", mailbox.name());
     Case {
         desc,
         exec: ExecCfg { horizon: 200, ..ExecCfg::default() },
         bound: None,
         scene: Box::new(ProgScene {
-            spawn: SpawnCfg { mailbox, strat: Strat::Default, timeout: timeout.map(|t| (t, fail)) },
+            spawn: SpawnCfg { mailbox, strat, timeout: timeout.map(|t| (t, fail)) },
             attach: Attach::None,
             roles: vec![role],
             clients,
-            extra: X { timeout, fail, durations },
+            extra: X { strat, timeout, fail, durations },
             oracle,
         }),
     }
@@ -286,6 +302,21 @@ fn cases(tier: Tier) -> Vec<Case> {
                                     v.push(make_case(Some(t), fail, &[a, b, c], mb, layout));
                                 }
                             }
+                        }
+                    }
+                }
+            }
+        }
+    }
+    // the other restart strategies: an abandoned handler must not reset or restart the actor
+    for &t in &[1u32, 2] {
+        for strat in [Strat::Recreate, Strat::NonRestartable] {
+            for fail in [false, true] {
+                for a in [0, t + 1] {
+                    for b in [0, t + 1] {
+                        v.push(make_case_s(Some(t), fail, &[a, b], Mailbox::U, 0, strat));
+                        if tier == Tier::Thorough {
+                            v.push(make_case_s(Some(t), fail, &[a, b, t - 1], Mailbox::B(1), 1, strat));
                         }
                     }
                 }
@@ -331,7 +362,7 @@ pub fn property() -> Property {
     Property {
         id: "C11",
         cases,
-        clauses: &["below-limit-completes", "no-timeout-completes", "above-limit-abandoned", "tie-consistent", "fail-on-timeout-terminates", "carries-on"],
+        clauses: &["no-restart-on-timeout", "below-limit-completes", "no-timeout-completes", "above-limit-abandoned", "tie-consistent", "fail-on-timeout-terminates", "carries-on"],
         full_rerun_check: true,
         assumptions: &[
             "handler durations are virtual sleeps; computation itself takes no virtual time (that is what 'needs less than t' means on the virtual clock)",
